@@ -381,6 +381,10 @@ func runC13(c *fw.Case) (o fw.Outcome) {
 	}
 	a.nas = rbytes(r, pick(r, 0, 1, 2, 127, 128, 255, 256, 2047, 5000, r.Intn(300)))
 	a.ipv4 = pick(r, "0.0.0.0", "255.255.255.255", "10.0.0.1", "192.168.61.3", "127.0.0.1", net.IP(rbytes(r, 4)).String(), ipv4Class(r).String(), ipv4Class(r).String())
+	if r.Intn(6) == 0 { // the same IPv4 address in the IPv4-mapped notations net.ParseIP also reads as IPv4 (To4 != nil)
+		ip := net.ParseIP(a.ipv4).To4()
+		a.ipv4 = pick(r, "::ffff:"+a.ipv4, fmt.Sprintf("::ffff:%02x%02x:%02x%02x", ip[0], ip[1], ip[2], ip[3]), fmt.Sprintf("0:0:0:0:0:ffff:%x:%x", int(ip[0])<<8|int(ip[1]), int(ip[2])<<8|int(ip[3])))
+	}
 	a.plmn = rbytes(r, 3)
 	a.gnbBits = uint64(22 + r.Intn(11))
 	a.gnbID = rbytes(r, 4)
